@@ -327,8 +327,16 @@ class SPNode(Node):
     def build(self):
         with self.world.on(self.name):
             cnf = file_config(self.world, self.spec, list(self.peer_view.values()))
-            conf = SPConfig().load(copy.deepcopy(cnf))
-            conf.context = "sp"
+            if self.spec.get("plain_config"):
+                # the documented all-in-one deployment: one plain Config object holding an "sp" section next to
+                # an "idp" one, no default context
+                cnf2 = copy.deepcopy(cnf)
+                cnf2["service"]["idp"] = {"endpoints": {"single_sign_on_service": [
+                    ("https://%s.sim.example/proxy/sso" % self.name, BINDING_HTTP_REDIRECT)]}}
+                conf = Config().load(cnf2)
+            else:
+                conf = SPConfig().load(copy.deepcopy(cnf))
+                conf.context = "sp"
             self.client = Saml2Client(config=conf)
         self.endpoints = sp_endpoints(self.spec)
         if not hasattr(self, "outstanding"):
